@@ -21,7 +21,7 @@ for p in props:
             "evidence_file": "/verif/evidence/%s.json" % pid,
             "replay_cmd_template": "./check %s --replay {path}" % pid,
             "engine": "lean4-proof+correspondence",
-            "level_claimed": {"category": "proof", "text": c.get("level_text", "Lean 4 theorems over an executable model of the anchored code, tied to /repo by regenerated facts and a differential correspondence run"), "design_ref": "DESIGN.md §5 " + pid},
+            "level_claimed": {"category": "proof", "text": ("Machine-checked proof in Lean 4 (%s): %d property theorems over an executable model of the anchored code, quantified over all inputs/histories/schedules the property names, audited with #print axioms (propext, Classical.choice, Quot.sound only; no sorry/native_decide). The model is tied to /repo's current source on every run: facts regenerated from the code into lean/KeepVerif/Gen (where the property depends on constants/lock sets) and a differential correspondence run of the real Go code against the model's executable definitions on generated cases (%s quick / %s thorough, forward and reverse order), plus a Lean monitor that evaluates the property itself on the implementation's observations to produce a concrete failing input. A proof gives the unbounded quantifier the tests cannot reach; the correspondence is what carries it to the code." % (c.get("level_text", "full"), len(c.get("theorems", [])), c.get("quick_n", "?"), c.get("thorough_n", "?"))), "design_ref": "DESIGN.md §5 " + pid + ", §10"},
             "level_note": c.get("level_note", "; ".join(c.get("assumptions", [])) or "Lean kernel; correspondence harness"),
             "technique": c.get("technique", "Lean 4 machine-checked proof over a hand-written model + model/implementation correspondence check"),
         })
